@@ -22,6 +22,9 @@ Model: `Stream.compactWith` / `compactInterleaved` and `Stream.recover` (M4) ove
   the oldest-first prefix of the candidates, so `GcSafe` can only fail through a segment that is
   not a candidate or that is newer than everything compacted; `smallest_first_selection_
   counterexample` shows what another selection order does.
+* `compaction_preserves_recovery_under_read_faults`: the oracle may also mangle any read of the
+  pass (`readCorrupt`); the current compactor skips such a segment.  `merge_invalid_segment_
+  counterexample` shows what merging it does.
 * kernel-checked counterexamples for every excluded case: `equal_times_counterexample`,
   `expiry_some_then_none_counterexample`, `hash_two_replicas_counterexample`,
   `production_clock_counterexample`, `dropped_tombstone_expiry_counterexample`,
@@ -145,23 +148,61 @@ def compactSmallestFirst (fl : CompactFlags) (F : Oracle) (cfg : CompactCfg) (sz
     let r := loadLoop fl F w1 LoadAcc.init sel
     compactFinish F cfg sz r.1 m r.2
 
+
+/-! ## read faults during the pass -/
+
+/-- **compaction_preserves_recovery_under_read_faults** (current tree, no tombstone GC): the
+    oracle may turn any `get` of the pass into an error or into a body that no parser accepts
+    (`readCorrupt`: truncated / flipped bytes / empty, the object at rest intact).  The current
+    compactor SKIPS such a segment — it stays listed and is not deleted (`loadLoop_repaired`) —
+    so recovery with clean reads after the pass equals recovery with clean reads before it. -/
+theorem compaction_preserves_recovery_under_read_faults (F : Oracle) (cfg : CompactCfg) (sz : Nat)
+    (w : World) (rid : Nat) (hinv : StoreInv w.store) (hc : Coherent (content w.store)) (hgc : cfg.cutoff = 0) :
+    recState (compact F cfg sz w).1.store rid = recState w.store rid :=
+  compaction_preserves_recovery_repaired F cfg sz w rid hinv hc hgc
+
+/-- the seeded variant (B): a segment whose read fails validation is merged anyway — with what
+    the mangled body decodes to (`garbage id`) — removed from the manifest and deleted -/
+def loadLoopMergeInvalid (garbage : Nat → List Delta) (F : Oracle) : World → LoadAcc → List SegInfo → World × LoadAcc
+  | w, acc, [] => (w, acc)
+  | w, acc, s :: rest =>
+    match w.get F (segName s.id) with
+    | (w1, .ok (.segment ds)) =>
+      loadLoopMergeInvalid garbage F w1
+        { acc with ktd := ds.foldl (keepStep true) acc.ktd, before := acc.before + ds.length,
+                   actually := acc.actually ++ [s] } rest
+    | (w1, .ok _) =>
+      loadLoopMergeInvalid garbage F w1
+        { acc with ktd := (garbage s.id).foldl (keepStep true) acc.ktd, before := acc.before + (garbage s.id).length,
+                   actually := acc.actually ++ [s] } rest
+    | (w1, .err _) => (w1, { acc with failed := true })
+
+def compactMergeInvalid (garbage : Nat → List Delta) (F : Oracle) (cfg : CompactCfg) (sz : Nat) (w : World) :
+    World × CompactOut :=
+  match loadOrCreate F w 0 with
+  | (w1, none) => (w1, .error)
+  | (w1, some m) =>
+    let r := loadLoopMergeInvalid garbage F w1 LoadAcc.init (selectSegments cfg m)
+    compactFinish F cfg sz r.1 m r.2
+
 /-! ## tombstone GC -/
 
 /-- **tombstone_gc_safe, partial** (repaired compactor, cutoff in Lamport units, every fault
-    oracle): under the decidable hypothesis `GcSafe` — every tombstone the compaction drops
+    oracle without read corruption — with a corrupted read the pass compacts fewer segments than
+    `GcSafe` was stated for): under the decidable hypothesis `GcSafe` — every tombstone the compaction drops
     belongs to a key that occurs in no listed segment outside the compaction — the recovered
     states agree key by key, except that a key whose merged value was a tombstone below the
     cutoff may be absent afterwards (it reads as deleted before and after).  Missing for the
     full statement: `GcSafe` is not established by the code (`older_value_in_skipped_segment_
     counterexample`, `dropped_tombstone_expiry_counterexample` — both layouts violate `GcSafe`), and the cutoff the code computes is not in Lamport units
     (`production_clock_counterexample`). -/
-theorem tombstone_gc_safe_partial (F : Oracle) (cfg : CompactCfg) (sz : Nat) (w : World)
+theorem tombstone_gc_safe_partial (F : Oracle) (hF : NoReadCorruption F) (cfg : CompactCfg) (sz : Nat) (w : World)
     (hinv : StoreInv w.store) (hc : Coherent (content w.store)) (hsafe : GcSafe w.store cfg) (k : Nat) :
     NMap.get (foldState (content (compactWith repairedCompact F cfg sz w).1.store)) k
         = NMap.get (foldState (content w.store)) k ∨
     (NMap.get (foldState (content (compactWith repairedCompact F cfg sz w).1.store)) k = none ∧
       ∃ T, NMap.get (foldState (content w.store)) k = some T ∧ T.isTombstone = true ∧ T.ts.time < cfg.cutoff) := by
-  rcases compact_gc_safe (carrierOf (content w.store) hc) repairedCompact rfl rfl F cfg sz w hinv
+  rcases compact_gc_safe (carrierOf (content w.store) hc) repairedCompact rfl rfl F hF cfg sz w hinv
       (inCar_of_coherent hc) hsafe k with h | ⟨h1, T, h2, h3⟩
   · exact Or.inl h
   · refine Or.inr ⟨h1, T, h2, ?_⟩
@@ -356,6 +397,45 @@ theorem smallest_first_selection_counterexample :
     -- the segment left behind is a candidate that is OLDER than the segments taken
     (selectSmallestFirst unevenCfg (manifestOf (after unevenOps).store 0)).map (·.id) = [1, 2] ∧
     (selectSegments unevenCfg (manifestOf (after unevenOps).store 0)).map (·.id) = [0, 1] := by
+  decide
+
+/-- two flushed segments; during the pass the read of segment 0 (store call 9) comes back with a
+    flipped byte in the record region: the checksum fails, the body still decodes — to key 107 with
+    a wrong value -/
+def readFaultOps : List Op := [.push (107, lww 1 5 1), .flush 100, .push (108, lww 2 6 1), .flush 100]
+def readFaultOracle : Oracle := fun n => if n = 9 then .readCorrupt else .ok
+def cfgOne : CompactCfg := { target := 1000, minSegs := 1, maxPer := 5, cutoff := 0 }
+
+/-- **merge-invalid counterexample** (seed C13-compaction-merges-invalid-segment): the current
+    compactor skips the segment whose read was mangled and recovery is unchanged; the variant
+    that merges it launders the mangled value into the compacted segment (fresh valid checksum)
+    and deletes the only good copy: recovery with clean reads returns a different state. -/
+theorem merge_invalid_segment_counterexample :
+    recState (after readFaultOps).store 1 = some [(107, lww 1 5 1), (108, lww 2 6 1)] ∧
+    (compact readFaultOracle cfgOne 100 (after readFaultOps)).2 = .compacted [1] 2 1 0 ∧
+    recState (compact readFaultOracle cfgOne 100 (after readFaultOps)).1.store 1
+      = some [(107, lww 1 5 1), (108, lww 2 6 1)] ∧
+    recState (compactMergeInvalid (fun _ => [(107, lww 99 5 1)]) readFaultOracle cfgOne 100 (after readFaultOps)).1.store 1
+      = some [(107, lww 99 5 1), (108, lww 2 6 1)] := by
+  decide
+
+/-- key 107 written @5 (segment 0), deleted @8 (segment 1), another key (segment 2); during the
+    pass the read of segment 0 (store call 13) comes back mangled -/
+def gcSkipOps : List Op :=
+  [.push (107, lww 1 5 1), .flush 100, .push (107, tomb 8 1), .flush 100, .push (120, lww 2 9 1), .flush 100]
+def gcSkipOracle : Oracle := fun n => if n = 13 then .readCorrupt else .ok
+def gcSkipCfg : CompactCfg := { target := 1000, minSegs := 2, maxPer := 5, cutoff := 100 }
+
+/-- **Known finding C13:tombstone-gc:skipped-unreadable-segment.**  Tombstone GC looks only at what
+    the pass actually merged: when a selected older segment is skipped because its read was
+    mangled, the pass still drops the key's tombstone, and the skipped segment brings the deleted
+    value back.  Without the read fault the same pass is safe. -/
+theorem gc_skipped_unreadable_segment_counterexample :
+    (recState (after gcSkipOps).store 1).map visible = some [(120, lww 2 9 1)] ∧
+    (recState (compact allOk gcSkipCfg 100 (after gcSkipOps)).1.store 1).map visible = some [(120, lww 2 9 1)] ∧
+    (compact gcSkipOracle gcSkipCfg 100 (after gcSkipOps)).2 = .compacted [1, 2] 3 1 1 ∧
+    (recState (compact gcSkipOracle gcSkipCfg 100 (after gcSkipOps)).1.store 1).map visible
+      = some [(107, lww 1 5 1), (120, lww 2 9 1)] := by
   decide
 
 theorem C13_false_pinned : ¬ C13_compaction_preserves_recovery pinnedFlags := by
